@@ -622,4 +622,57 @@ theorem poolRun_refines (c : Cfg) (all : List Int) (p : PSt) (pevs : List PEvent
     show (poolRun c (poolStep c p ev) rest).base = _
     rw [h2, h1, run_append]
 
+/-! ### `Engine.Run` -/
+
+/-- the engine returns without error only after every pool has returned without error; it returns "failed" only on a pool
+result with an error and "cancelled" only when its context is done — nothing else makes it return (and cancel all pools) -/
+theorem engSeq_spec (n : Int) (evs : List EngEv) (i : Int) (k : Int) (r : EngRet) (hi : i ≤ n)
+    (h : engSeq n i evs = { awaited := k, ret := some r }) :
+    (r = .ok → k = n ∧ ∃ pre, pre.length = (n - i).toNat ∧ pre <+: evs ∧ ∀ e ∈ pre, e = EngEv.result true) ∧
+    (r = .failed → EngEv.result false ∈ evs) ∧ (r = .cancelled → EngEv.ctxDone ∈ evs) := by
+  induction evs generalizing i with
+  | nil =>
+    simp only [engSeq] at h
+    by_cases hlt : i < n
+    · simp [hlt] at h
+    · simp only [hlt, if_false, EngRes.mk.injEq, Option.some.injEq] at h
+      obtain ⟨rfl, rfl⟩ := h
+      have : i = n := by omega
+      subst this
+      exact ⟨fun _ => ⟨rfl, [], by simp, List.prefix_refl _, by simp⟩, (by intro hx; cases hx), (by intro hx; cases hx)⟩
+  | cons ev rest ih =>
+    simp only [engSeq] at h
+    by_cases hlt : i < n
+    · simp only [hlt, if_true] at h
+      cases ev with
+      | result errNil =>
+        cases errNil with
+        | false =>
+          simp only [Bool.not_false, if_true, EngRes.mk.injEq, Option.some.injEq] at h
+          obtain ⟨_, rfl⟩ := h
+          exact ⟨(by intro hx; cases hx), fun _ => by simp, (by intro hx; cases hx)⟩
+        | true =>
+          simp only [Bool.not_true, Bool.false_eq_true, if_false] at h
+          obtain ⟨h1, h2, h3⟩ := ih (i + 1) (by omega) h
+          refine ⟨fun hr => ?_, fun hr => List.mem_cons_of_mem _ (h2 hr), fun hr => List.mem_cons_of_mem _ (h3 hr)⟩
+          obtain ⟨hk, pre, hlen, hpre, hall⟩ := h1 hr
+          refine ⟨hk, EngEv.result true :: pre, ?_, ?_, ?_⟩
+          · simp only [List.length_cons, hlen]
+            omega
+          · exact List.cons_prefix_cons.mpr ⟨rfl, hpre⟩
+          · intro e he
+            simp only [List.mem_cons] at he
+            rcases he with he | he
+            · exact he
+            · exact hall e he
+      | ctxDone =>
+        simp only [EngRes.mk.injEq, Option.some.injEq] at h
+        obtain ⟨_, rfl⟩ := h
+        exact ⟨(by intro hx; cases hx), (by intro hx; cases hx), fun _ => by simp⟩
+    · simp only [hlt, if_false, EngRes.mk.injEq, Option.some.injEq] at h
+      obtain ⟨rfl, rfl⟩ := h
+      have : i = n := by omega
+      subst this
+      exact ⟨fun _ => ⟨rfl, [], by simp, List.nil_prefix, by simp⟩, (by intro hx; cases hx), (by intro hx; cases hx)⟩
+
 end Pandora.Proofs.C12
